@@ -179,11 +179,123 @@ def model_gen(pid, stream, seed, start, n):
         return [tuple(l.split('\t')) for l in p.stdout.decode().split('\n') if l]
     with ThreadPoolExecutor(max_workers=shards) as ex:
         res = list(ex.map(one, jobs))
-    return [x for r in res for x in r]
+    out = [x for r in res for x in r]
+    _xc_note_gen(pid, stream, seed, start, out)
+    return out
 
 
 def model_run(pid, lines, timeout=600.0):
-    return run_sharded([GFMODEL, 'run', pid], lines, timeout=timeout, limit_mem=False)
+    out = run_sharded([GFMODEL, 'run', pid], lines, timeout=timeout, limit_mem=False)
+    _xc_note_run(pid, lines, out)
+    return out
+
+
+# ---- extraction cross-check -------------------------------------------------------------------
+# The model that is run against the implementation is the OCaml program extracted from the Gallina
+# definitions, with hand-written glue (ocaml/main.ml) that parses and prints tokens.  A sample of the
+# very (input, output) pairs the extracted program produced in this run -- and of the (index, input,
+# expected) triples of the extracted generators -- is re-evaluated INSIDE Coq by vm_compute on the
+# Gallina definitions the theorems are about; any difference means extraction or glue is unfaithful.
+XC_RUN = {}             # registry name -> [(input line, output line)]
+XC_GEN = {}             # (registry name, stream, seed) -> [(index, input line, expected line)]
+XC_CASE_MAX = 5000      # characters per case (literals of this size parse quickly)
+XC_KEEP = dict(quick=24, thorough=160)
+
+
+def _xc_note_run(pid, lines, outs):
+    cur = XC_RUN.setdefault(pid, [])
+    rng = random.Random(len(cur) * 7919 + len(lines))
+    cand = [(l, o) for l, o in zip(lines, outs) if len(l) + len(o) < XC_CASE_MAX and o != 'hang' and '\t' not in l]
+    rng.shuffle(cand)
+    cur.extend(cand[:40])
+    del cur[400:]
+
+
+def _xc_note_gen(pid, stream, seed, start, cases):
+    cur = XC_GEN.setdefault((pid, stream, seed), [])
+    for j, c in enumerate(cases):
+        if len(c) == 2 and len(c[0]) + len(c[1]) < XC_CASE_MAX and len(cur) < 60:
+            cur.append((start + j, c[0], c[1]))
+
+
+def _registry():
+    txt = open(os.path.join(VERIF, 'ocaml', 'registry.ml')).read()
+    g = re.search(r'let gens = \[(.*?)\]', txt, re.S).group(1)
+    r = re.search(r'let runs = \[(.*?)\]', txt, re.S).group(1)
+    pair = re.compile(r'\("(\w+)",\s*(\w+)\)')
+    return dict(pair.findall(g)), dict(pair.findall(r))
+
+
+def _coq_tok(t):
+    if t.startswith('#'):
+        return 'TN %d' % int(t[1:], 16)
+    if t.startswith('='):
+        b = bytes.fromhex(t[1:])
+        return 'TB [%s]' % ';'.join(str(x) for x in b)
+    return 'TS "%s"' % t.replace('"', '""')
+
+
+def _coq_toks(line):
+    return '[' + '; '.join(_coq_tok(t) for t in line.split(' ') if t != '') + ']'
+
+
+def xcheck_extraction(tier):
+    """-> dict(run_cases, gen_cases, mismatches=[...], log) ; evaluates inside Coq"""
+    gens, runs = _registry()
+    keep = XC_KEEP[tier]
+    body = ['From Coq Require Import String NArith List Bool.',
+            'From GF Require Import Base.Res Extract.Extract.' if False else 'From GF Require Import Base.Res.',
+            'From GF Require Import ' + ' '.join('Drivers.' + os.path.basename(f)[:-2] for f in
+                                                 sorted(os.listdir(os.path.join(VERIF, 'coq', 'Drivers'))) if f.endswith('.v')) + '.',
+            'Import ListNotations.', 'Open Scope N_scope.', 'Open Scope string_scope.',
+            'Definition bad_run (f : list tok -> list tok) (cs : list (N * list tok * list tok)) : list N :=',
+            '  flat_map (fun c => let \'(i, a, b) := c in if toks_eqb (f a) b then [] else [i]) cs.',
+            'Definition bad_gen (g : N -> N -> N -> list tok * list tok) (st sd : N) (cs : list (N * list tok * list tok)) : list N :=',
+            '  flat_map (fun c => let \'(i, a, b) := c in let r := g st sd i in',
+            '                     if toks_eqb (fst r) a && toks_eqb (snd r) b then [] else [i]) cs.']
+    names, nrun, ngen = [], 0, 0
+    for k, (pid, cs) in enumerate(sorted(XC_RUN.items())):
+        if pid not in runs or not cs:
+            continue
+        cs = cs[:keep]
+        nrun += len(cs)
+        lit = ';\n  '.join('(%d, %s, %s)' % (i, _coq_toks(a), _coq_toks(b)) for i, (a, b) in enumerate(cs))
+        body.append('Definition XR%d := Eval vm_compute in bad_run %s [\n  %s].' % (k, runs[pid], lit))
+        body.append('Print XR%d.' % k)
+        names.append(('XR%d' % k, 'run ' + pid, cs))
+    for k, ((pid, stream, seed), cs) in enumerate(sorted(XC_GEN.items())):
+        if pid not in gens or not cs:
+            continue
+        cs = cs[:max(6, keep // 4)]
+        ngen += len(cs)
+        lit = ';\n  '.join('(%d, %s, %s)' % (i, _coq_toks(a), _coq_toks(b)) for i, a, b in cs)
+        body.append('Definition XG%d := Eval vm_compute in bad_gen %s %d %d [\n  %s].' % (k, gens[pid], stream, seed, lit))
+        body.append('Print XG%d.' % k)
+        names.append(('XG%d' % k, 'gen %s stream %d seed %d' % (pid, stream, seed), cs))
+    if not names:
+        return dict(run_cases=0, gen_cases=0, mismatches=[], log='nothing to check')
+    import tempfile, shutil
+    d = tempfile.mkdtemp(prefix='xcheck', dir='/root/scratch')
+    try:
+        open(os.path.join(d, 'XCheck.v'), 'w').write('\n'.join(body) + '\n')
+        p = sh('timeout 900 coqc -Q %s GF XCheck.v' % os.path.join(VERIF, 'coq'), cwd=d, timeout=1000, check=False)
+        out = p.stdout
+        mism = []
+        if p.returncode != 0:
+            mism.append(dict(what='the cross-check file did not compile', log=out[-1500:]))
+        else:
+            for nm, what, cs in names:
+                m = re.search(r'\b%s\s*=\s*(\[[^\]]*\])' % nm, out)
+                if not m:
+                    mism.append(dict(what='no result printed for ' + what))
+                elif m.group(1).strip() != '[]':
+                    idx = [int(x) for x in re.findall(r'\d+', m.group(1))]
+                    ex = [c for j, c in enumerate(cs) if (c[0] if len(c) == 3 else j) in idx][:3]
+                    mism.append(dict(what='extracted program and kernel evaluation differ: ' + what, cases=[list(c) for c in ex]))
+        return dict(run_cases=nrun, gen_cases=ngen, mismatches=mism,
+                    how='Eval vm_compute of the Gallina entry points on the inputs the extracted program was run on in this run, compared with its outputs by toks_eqb')
+    finally:
+        shutil.rmtree(d, ignore_errors=True)
 
 
 COV_LINES = []          # sample of the input lines sent to the implementation by this run (for the coverage measurement)
@@ -439,10 +551,16 @@ class Check:
 
     # ---- output
     def finish(self, prop, extra_cov=None):
-        wall = time.time() - self.t0
         os.makedirs(os.path.join(VERIF, 'evidence'), exist_ok=True)
         os.makedirs(os.path.join(VERIF, 'replays'), exist_ok=True)
         rc = 0
+        try:
+            xc = xcheck_extraction(self.tier)
+        except Exception as e:
+            xc = dict(run_cases=0, gen_cases=0, mismatches=[dict(what='cross-check did not run: ' + str(e)[:300])])
+        for mm in xc['mismatches']:
+            self.violations.append(dict(kind='correspondence', concrete=False,
+                                        what='extraction cross-check: ' + mm['what'], detail=mm))
         for f in self.findings:
             if f['id'] in self.known:
                 print('KNOWN-FINDING: property=%s %s (%d cases re-confirmed, e.g. %s)' %
@@ -462,6 +580,7 @@ class Check:
             tail = '' if v.get('concrete') else ' no-failing-input-found'
             print('VIOLATION property=%s replay=%s%s' % (self.pid, replay, tail))
         pr = self.proof or {}
+        wall = time.time() - self.t0
         cov = dict(
             obligations=pr.get('obligations', 0), discharged=pr.get('discharged', 0),
             checker_cmd=pr.get('cmd', ''),
@@ -471,6 +590,7 @@ class Check:
             theorems=pr.get('theorems', []),
             evaluations=self.evals, distinct_nontrivial=len(self.nontrivial), rule=prop.RULE,
             samples=self.samples[:6], distribution=self.dist, exhaustive_sweeps=self.exhaustive,
+            extraction_crosscheck={k: v for k, v in xc.items() if k != 'log'},
             exhaustive=False, known_findings_reconfirmed={k: len(v) for k, v in self.known.items()},
             notes=self.notes + (['watchdog verdicts re-run in isolation with 6x watchdogs: %s' % RETRIED[:10]] if RETRIED else []))
         if extra_cov:
